@@ -8,6 +8,7 @@ import (
 
 	"github.com/google/uuid"
 	"github.com/hydraide/hydraide/app/panichandler"
+	"github.com/hydraide/hydraide/app/verifhook"
 )
 
 type Lock interface {
@@ -79,6 +80,9 @@ func (q *queue) enqueue(c *caller) {
 	if wasEmpty {
 		close(c.ready)
 	}
+	if verifhook.Enabled {
+		verifhook.Point("lock.enq", q, c.id, wasEmpty)
+	}
 }
 
 // remove deletes the caller with the given id from the queue. If the removed
@@ -101,7 +105,13 @@ func (q *queue) remove(id string) bool {
 			// Wake the next waiter.
 			close(q.callers[0].ready)
 		}
+		if verifhook.Enabled {
+			verifhook.Point("lock.rm", q, id, true)
+		}
 		return true
+	}
+	if verifhook.Enabled {
+		verifhook.Point("lock.rm", q, id, false)
 	}
 	return false
 }
@@ -126,10 +136,16 @@ func (l *lock) Lock(ctx context.Context, key string, ttl time.Duration) (lockID 
 	q := l.getQueue(key)
 	q.enqueue(c)
 
+	if verifhook.Enabled {
+		verifhook.Point("lock.select", q, lockID)
+	}
 	// Wait until either we become the head of the queue (ready closed),
 	// or the caller's context is done.
 	select {
 	case <-c.ready:
+		if verifhook.Enabled {
+			verifhook.Point("lock.acq", q, lockID)
+		}
 		// We hold the lock now. Start the auto-release watchdog: if the caller
 		// forgets to Unlock or crashes, the TTL will release the lock and
 		// wake the next waiter. The watchdog uses a fresh background context
@@ -140,6 +156,9 @@ func (l *lock) Lock(ctx context.Context, key string, ttl time.Duration) (lockID 
 			defer t.Stop()
 			select {
 			case <-t.C:
+				if verifhook.Enabled {
+					verifhook.Point("lock.ttl", q, lockID)
+				}
 				q.remove(lockID)
 			case <-c.done:
 				// Unlock (or another remove) already took us out;
@@ -154,6 +173,9 @@ func (l *lock) Lock(ctx context.Context, key string, ttl time.Duration) (lockID 
 		// (race window: enqueue closed our ready right after we entered
 		// select), remove() still does the right thing — it wakes the
 		// next waiter when removing the head.
+		if verifhook.Enabled {
+			verifhook.Point("lock.cancel", q, lockID)
+		}
 		q.remove(lockID)
 		return "", errors.New("lock timeout")
 	}
